@@ -1,5 +1,5 @@
 (* C12 — what the property demands, independent of how apko computes it. *)
-From Apko Require Import Base.Prelude Base.C12Lib.
+From Apko Require Import Base.Prelude Base.C12Lib Model.Oci.   (* Model: record types only *)
 From Coq Require Import Permutation Sorted.
 Open Scope string_scope. Open Scope list_scope.
 
@@ -41,3 +41,143 @@ Fixpoint bundle_complete_tags_with (plat : string -> string) (archs : list strin
   | [], [] => []
   | _, _ => ["viol:bundle-manifest-count"]
   end.
+
+Lemma bundle_complete_tags_iff plat : forall archs included,
+  bundle_complete_tags_with plat archs included = [] <->
+  (List.length archs = List.length included /\ BundleComplete included).
+Proof.
+  induction archs as [|a archs IH]; intros [|b inc]; simpl.
+  - split; [intros _; split; [reflexivity|constructor]|reflexivity].
+  - split; [discriminate|intros [H _]; discriminate].
+  - split; [discriminate|intros [H _]; discriminate].
+  - destruct b; simpl.
+    + rewrite IH. split.
+      * intros [L F]. split; [congruence|constructor; [reflexivity|exact F]].
+      * intros [L F]. inversion F; subst. split; [congruence|assumption].
+    + split.
+      * destruct (existsb _ _); discriminate.
+      * intros [_ F]. inversion F; discriminate.
+Qed.
+
+(* apk-style names of the architectures (Alpine's arch names) and the OCI-style
+   name apko uses for each *)
+Definition apk_names : list (string * string) :=
+  [("x86", "386"); ("x86_64", "amd64"); ("aarch64", "arm64"); ("armhf", "arm/v6");
+   ("armv7", "arm/v7"); ("loongarch64", "loong64");
+   ("ppc64le", "ppc64le"); ("riscv64", "riscv64"); ("s390x", "s390x")].
+Definition spec_canonical (s : string) : string :=
+  match alookup s apk_names with Some o => o | None => s end.
+Definition expected_platform (s : string) : string * string := spec_platform (spec_canonical s).
+Definition expected_os : string := "linux".
+
+(* ---- environment --------------------------------------------------------------
+   OCI image spec: Env entries are "VARNAME=VARVALUE". The rendered environment
+   is sorted (as strings) and is, up to order, exactly: every configured
+   binding, plus every default whose key is not configured. *)
+Definition spec_env_entry (kv : string * string) : string := (fst kv ++ "=" ++ snd kv)%string.
+Definition unconfigured (env : list (string * string)) (kv : string * string) : bool :=
+  match alookup (fst kv) env with Some _ => false | None => true end.
+Definition effective_env (defaults env : list (string * string)) : list (string * string) :=
+  env ++ filter (unconfigured env) defaults.
+Definition EnvOk (defaults env : list (string * string)) (out : list string) : Prop :=
+  StronglySorted sle out /\ Permutation out (List.map spec_env_entry (effective_env defaults env)).
+
+Definition sid (s : string) : string := s.
+Definition env_ok_b (defaults env : list (string * string)) (out : list string) : bool :=
+  sortedb sid out &&
+  list_eqb String.eqb (isort sid out) (isort sid (List.map spec_env_entry (effective_env defaults env))).
+Definition mem_s (s : string) (l : list string) : bool := existsb (String.eqb s) l.
+Definition env_tags (defaults env : list (string * string)) (out : list string) : list string :=
+  if env_ok_b defaults env out then []
+  else if negb (sortedb sid out) then ["viol:env-not-sorted"]
+  else if negb (forallb (fun kv => mem_s (spec_env_entry kv) out) env) then ["viol:env-configured-value-not-rendered"]
+  else ["viol:env-entries-differ"].
+
+(* ---- config --------------------------------------------------------------------- *)
+Definition source_key : string := "org.opencontainers.image.source".
+Definition revision_key : string := "org.opencontainers.image.revision".
+Definition created_key : string := "org.opencontainers.image.created".
+
+Section ConfigSpec.
+  Variable shlex : string -> option (list string).
+  Variable rfc3339 : Z -> string.
+
+  (* the label a key must carry *)
+  Definition expected_label (ic : image_config) (created : Z) (k : string) : option string :=
+    if String.eqb k created_key then Some (rfc3339 created)
+    else match (if nonempty (ic_vcs_url ic) then cut_at "@"%char (ic_vcs_url ic) else None) with
+         | Some (url, hash) =>
+             if String.eqb k revision_key then Some hash
+             else if String.eqb k source_key then Some url
+             else alookup k (ic_annotations ic)
+         | None => alookup k (ic_annotations ic)
+         end.
+
+  (* declared command line [s]: empty = inherit, otherwise its shell-word split *)
+  Definition WordsOk (s : string) (inherit out : list string) : Prop :=
+    if nonempty s then shlex s = Some out else out = inherit.
+
+  Definition or_inherit (s inherit : string) : string := if nonempty s then s else inherit.
+
+  Record ConfigMirrors (plat : string * string) (base : oci_config) (ic : image_config) (created : Z)
+      (cfg : oci_config) : Prop := {
+    cm_entrypoint :
+      if nonempty (ic_shell_fragment ic)
+      then oc_entrypoint cfg = ["/bin/sh"; "-c"; ic_shell_fragment ic]
+      else WordsOk (ic_command ic) (oc_entrypoint base) (oc_entrypoint cfg);
+    cm_cmd : WordsOk (ic_cmd ic) (oc_cmd base) (oc_cmd cfg);
+    cm_workdir : oc_workdir cfg = or_inherit (ic_workdir ic) (oc_workdir base);
+    cm_user : oc_user cfg = or_inherit (ic_run_as ic) (oc_user base);
+    cm_stop_signal : oc_stop_signal cfg = or_inherit (ic_stop_signal ic) (oc_stop_signal base);
+    cm_volumes : forall v, In v (oc_volumes cfg) <->
+                           In v (match ic_volumes ic with [] => oc_volumes base | vs => vs end);
+    cm_env : EnvOk Generated.C12Oci.default_env (ic_env ic) (oc_env cfg);
+    cm_labels : forall k, alookup k (oc_labels cfg) = expected_label ic created k;
+    cm_created : oc_created cfg = created;
+    cm_platform : (oc_architecture cfg, oc_variant cfg) = plat;
+    cm_os : oc_os cfg = expected_os }.
+
+  (* boolean validator, run on the config read back from the built image *)
+  Definition words_ok_b (s : string) (inherit out : list string) : bool :=
+    if nonempty s then option_eqb (list_eqb String.eqb) (shlex s) (Some out)
+    else list_eqb String.eqb out inherit.
+  Definition incl_b (a b : list string) : bool := forallb (fun x => mem_s x b) a.
+  Definition label_keys (ic : image_config) (cfg : oci_config) : list string :=
+    [created_key; revision_key; source_key] ++ akeys (ic_annotations ic) ++ akeys (oc_labels cfg).
+
+  Definition config_tags (plat : string * string) (base : oci_config) (ic : image_config) (created : Z)
+      (cfg : oci_config) : list string :=
+    tag_if (negb (if nonempty (ic_shell_fragment ic)
+                  then list_eqb String.eqb (oc_entrypoint cfg) ["/bin/sh"; "-c"; ic_shell_fragment ic]
+                  else words_ok_b (ic_command ic) (oc_entrypoint base) (oc_entrypoint cfg)))
+           "viol:config-entrypoint" ++
+    tag_if (negb (words_ok_b (ic_cmd ic) (oc_cmd base) (oc_cmd cfg))) "viol:config-cmd" ++
+    tag_if (negb (String.eqb (oc_workdir cfg) (or_inherit (ic_workdir ic) (oc_workdir base)))) "viol:config-workdir" ++
+    tag_if (negb (String.eqb (oc_user cfg) (or_inherit (ic_run_as ic) (oc_user base)))) "viol:config-user" ++
+    tag_if (negb (String.eqb (oc_stop_signal cfg) (or_inherit (ic_stop_signal ic) (oc_stop_signal base)))) "viol:config-stop-signal" ++
+    tag_if (negb (let want := match ic_volumes ic with [] => oc_volumes base | vs => vs end in
+                  incl_b (oc_volumes cfg) want && incl_b want (oc_volumes cfg))) "viol:config-volumes" ++
+    env_tags Generated.C12Oci.default_env (ic_env ic) (oc_env cfg) ++
+    tag_if (negb (forallb (fun k => option_eqb String.eqb (alookup k (oc_labels cfg)) (expected_label ic created k))
+                          (label_keys ic cfg))) "viol:config-labels" ++
+    tag_if (negb (Z.eqb (oc_created cfg) created)) "viol:config-created" ++
+    tag_if (negb (String.eqb (oc_architecture cfg) (fst plat) && String.eqb (oc_variant cfg) (snd plat))) "viol:config-platform" ++
+    tag_if (negb (String.eqb (oc_os cfg) expected_os)) "viol:config-os".
+End ConfigSpec.
+
+(* ---- index ---------------------------------------------------------------------- *)
+Definition IndexOk {D} (plat : string -> string * string) (imgs : list (string * D))
+    (out : list (index_entry D)) : Prop :=
+  StronglySorted (kle ie_key) out /\
+  Permutation (List.map (fun e => (ie_key e, ie_desc e)) out) imgs /\
+  Forall (fun e => (ie_arch e, ie_variant e) = plat (ie_key e) /\ ie_os e = expected_os) out.
+
+(* validator for an observed index: [keys] requested, observed entries as
+   (key of the image the manifest's digest belongs to, arch, variant, os) *)
+Definition index_tags (plat : string -> string * string) (keys : list string)
+    (out : list (string * (string * string * string))) : list string :=
+  tag_if (negb (sortedb fst out)) "viol:index-not-sorted-by-architecture" ++
+  tag_if (negb (list_eqb String.eqb (isort sid (List.map fst out)) (isort sid keys))) "viol:index-not-one-manifest-per-architecture" ++
+  tag_if (negb (forallb (fun e => match e with (k, (a, v, o)) =>
+                 String.eqb a (fst (plat k)) && String.eqb v (snd (plat k)) && String.eqb o expected_os end) out))
+         "viol:index-platform".
